@@ -233,7 +233,7 @@ impl Writer {
         let cache = self.cache;
         let writer_sri = self.writer.close().await?;
         if let Some(sri) = &self.opts.sri {
-            if sri.matches(&writer_sri).is_none() {
+            if writer_sri.matches(sri).is_none() {
                 return Err(ssri::Error::IntegrityCheckError(sri.clone(), writer_sri).into());
             }
         } else {
@@ -498,6 +498,11 @@ impl WriteOpts {
     /// mismatch between this Integrity and the one calculated by the write,
     /// `put.commit()` will error.
     pub fn integrity(mut self, sri: Integrity) -> Self {
+        // The data has to be hashed with the algorithm the expected integrity
+        // is checked and addressed by, unless the caller chose one already.
+        if self.algorithm.is_none() {
+            self.algorithm = sri.hashes.first().map(|h| h.algorithm);
+        }
         self.sri = Some(sri);
         self
     }
@@ -584,7 +589,7 @@ impl SyncWriter {
         let cache = self.cache;
         let writer_sri = self.writer.close()?;
         if let Some(sri) = &self.opts.sri {
-            if sri.matches(&writer_sri).is_none() {
+            if writer_sri.matches(sri).is_none() {
                 return Err(ssri::Error::IntegrityCheckError(sri.clone(), writer_sri).into());
             }
         } else {
